@@ -112,7 +112,10 @@ def search(pid, unit, mm, fm, seed):
     """first failing input found for the function of a failed obligation, or {}"""
     if not os.path.isdir(RUNNER):
         return {}
-    for (feat, probe) in probes_for(mm.get("file"), mm.get("header"), fm.get("display", fm.get("fn", "")), pid):
+    file = mm.get("file")
+    if not file or file.startswith("("):      # generated lemma: the source file its literals were read from
+        file = fm.get("file") or file
+    for (feat, probe) in probes_for(file, mm.get("header"), fm.get("display", fm.get("fn", "")), pid):
         r = run_probe(feat, probe, seed or 1, iters=96)
         if r.get("status") == "cex":
             return dict(input=r.get("input"), check=r.get("check"), got=r.get("got"), want=r.get("want"), cmd=r.get("cmd"), probe=probe, build=feat)
